@@ -84,6 +84,8 @@ def make_frame(c, rng):
         d = np.array([fh(x) for x in c["prior"]], dtype=float).reshape((c["T"], c["F"]))
         if c.get("dtype") == "float32":
             d = d.astype(np.float32)
+        elif c.get("dtype") == "int64":
+            d = d.astype(np.int64)
         return stg.Frame.from_data(ascending=False, data=d, **kw)
     return stg.Frame(fchans=c["F"], tchans=c["T"], **kw)
 
